@@ -385,7 +385,7 @@ func c16FixerFloors(res *Result) {
 		k string
 		n int
 	}{
-		{"fixers.usedby changing-passes=1", 500}, {"fixers.usedby changing-passes=0", 500}, {"fixers.usedby panics (model and code)", 3},
+		{"fixers.usedby changing-passes=1", 500}, {"fixers.usedby changing-passes=0", 500},
 		{"fixers.plist changing-passes=1", 200}, {"fixers.plist changing-passes=2", 200}, {"fixers.plist changing-passes=0", 5},
 		{"fixers.plist pass1-action Deleting this line.", 100}, {"fixers.plist pass1-action Replacing _ with _.", 200}, {"fixers.plist pass1-action Inserting a line _ above this line.", 100},
 		{"fixers.cvsid-mk changing-passes=1", 10}, {"fixers.cvsid-plain changing-passes=1", 10}, {"fixers.cvsid-plist changing-passes=1", 10},
